@@ -67,9 +67,67 @@ def run(p: Project, tier: str) -> Result:
     for f in sub.findings:
         if f.rule == 'C03.R2':
             r.fail('C18.R4', f.construct, f.message, f.file, f.line, f.path)
+    check_counter_instant(nws, r)
     check_cycle_time(p, nws, r)
     check_timestamps(p, r)
     return r
+
+
+COUNTED = {'num_item_processed': 'push', 'num_item_generated': 'create', 'num_item_received': 'receive'}
+
+
+def check_counter_instant(nws, r):
+    """R8: a counter changes in the same uninterrupted stretch as the event it counts.  On every path the k-th increment of a counter and the k-th counted
+    event (creation of the item / put or completion of the push process / get by the sink) are not separated by any other suspension point: otherwise the
+    counter is ahead of (or behind) the items actually moved for as long as that wait lasts - e.g. for the whole time a blocking machine waits for room."""
+    r.rule('C18.R8', 'no suspension point between a counter increment and the event it counts', 6)
+    sites = {}
+    for w in nws:
+        for root, ps in w.roots.items():
+            fi = w.root_funcs[root]
+            for pa in ps:
+                if pa.raises or pa.status == 'loopcut':
+                    continue
+                evs = pa.events
+                counted = {'push': [], 'create': [], 'receive': []}
+                incs = {}
+                for i, e in enumerate(evs):
+                    if e.kind == 'pcall' and e.name == 'put':
+                        counted['push'].append((i, i))
+                    elif e.kind == 'yield' and e.d.get('cls') == 'process' and i > 0 and evs[i - 1].kind == 'spawn' and evs[i - 1].func == 'self._push_item':
+                        counted['push'].append((i, i))           # the wait for the push process *is* the hand-over
+                    elif c03.is_item_source(e) == 'constructor':
+                        counted['create'].append((i, i))
+                    elif e.kind == 'pcall' and e.name == 'get' and w.ci.name == 'Sink':
+                        counted['receive'].append((i, i))
+                    elif e.kind == 'setitem' and e.aug and e.aug[0] == 'Add':
+                        for cname, what in COUNTED.items():
+                            if cname in e.target:
+                                incs.setdefault((cname, what), []).append(i)
+                for (cname, what), idxs in incs.items():
+                    if len(idxs) != len(counted[what]):
+                        continue                              # mis-pairing is R4's finding
+                    for k, (i_inc, (i_ev, _)) in enumerate(zip(idxs, counted[what])):
+                        lo, hi = sorted((i_inc, i_ev))
+                        res = evs[i_ev].d.get('result')
+                        # a wait on the very object the counted call returned (the legacy `yield item` when get hands out a process) is part of that event
+                        between = [x for x in evs[lo + 1:hi] if x.kind == 'yield' and not (res is not None and x.d.get('value') == res)]
+                        e_inc = evs[i_inc]
+                        key = site(e_inc.fi, e_inc.node, f'counter-instant:{cname}')
+                        rec = sites.setdefault(key, {'ok': True, 'pa': pa, 'why': '', 'e': e_inc, 'n': 0})
+                        rec['n'] += 1
+                        if between and rec['ok']:
+                            y = between[0]
+                            order = 'before' if i_inc < i_ev else 'after'
+                            rec.update(ok=False, pa=pa, why=f'`{cname}` is incremented {order} the {what} it counts with a suspension point in between '
+                                                              f'(`yield {y.text}` at line {y.line}): while the process waits there the counter does not equal the '
+                                                              f'number of items actually {"pushed downstream" if what == "push" else "created" if what == "create" else "received"}')
+    for key, rec in sorted(sites.items()):
+        e = rec['e']
+        if rec['ok']:
+            r.ok('C18.R8', key, f'adjacent to the counted event on {rec["n"]} path(s)', src(e.fi.module), e.line)
+        else:
+            r.fail('C18.R8', key, rec['why'], src(e.fi.module), e.line, rec['pa'].describe())
 
 
 def check_level_pairing(p, w, r):
